@@ -118,8 +118,12 @@ class Float(numerical.Numerical):
 
     def prob_to_value(self, prob):
         if self.step is None:
-            return self._sample_numerical_value(prob)
-        return self._sample_with_step(prob)
+            value = self._sample_numerical_value(prob)
+        else:
+            value = self._sample_with_step(prob)
+        # The float computation can land an ulp outside the range (e.g.
+        # reverse_log sampling for a prob next to 0).
+        return max(self.min_value, min(value, self.max_value))
 
     def value_to_prob(self, value):
         if self.step is None:
